@@ -632,6 +632,11 @@ func (s *Server) bootstrapCluster(req *pdpb.BootstrapRequest) (*pdpb.BootstrapRe
 	if err := s.cluster.Start(s); err != nil {
 		return nil, err
 	}
+	// A member that has been a follower has already marked its region storage as loaded
+	// (LoadRegionsOnce), so Start did not pick the first region up: serve it anyway.
+	if s.cluster.GetRegion(req.GetRegion().GetId()) == nil {
+		s.basicCluster.CheckAndPutRegion(core.NewRegionInfo(req.GetRegion(), nil))
+	}
 
 	return &pdpb.BootstrapResponse{
 		ReplicationStatus: s.cluster.GetReplicationMode().GetReplicationStatus(),
